@@ -93,7 +93,8 @@ class World:
         unused = [o for o in spec.oids if m.cur(self.oid(o)) is None]
         ops = []
         for k in spec.kinds:
-            if self.packed and k in ('undo', 'undo2', 'stale', 'restore'):
+            if self.packed and k in ('undo', 'undo2', 'stale', 'restore',
+                                     'stalegone'):
                 continue    # the list model does not follow a pack
             if k == 'new':
                 # symmetry: only the lowest unused oid of each class
@@ -120,7 +121,10 @@ class World:
                     ops.append(('bignew', unused[0]))
             elif k == 'meta':
                 if live:
-                    ops += [('meta', live[0], 1), ('meta', live[0], 65535)]
+                    ops += [('meta', live[0], 1), ('meta', live[0], 65535),
+                            ('meta', live[0], 'user'),
+                            ('meta', live[0], 'desc'),
+                            ('meta', live[0], 'ext')]
             elif k == 'empty':
                 ops.append(('empty',))
             elif k == 'del':
@@ -140,6 +144,14 @@ class World:
                 for o in live:
                     if len(m.recs(self.oid(o))) >= 2:
                         ops.append(('stale', o))
+            elif k == 'stalegone':
+                # a writer that still holds a revision of an object whose
+                # current record is an un-creation / deletion
+                for o in spec.oids:
+                    rs = m.recs(self.oid(o))
+                    if len(rs) >= 2 and rs[-1].resolve() is None and \
+                            rs[-2].resolve() is not None:
+                        ops.append(('stalegone', o))
             elif k == 'same':
                 ops += [('same', o) for o in live[:1]]
             elif k == 'recreate':
@@ -280,6 +292,13 @@ class World:
                               self.rec(spec, op[1], pad=9000))])
         if k == 'meta':
             o, n = O(op[1]), op[2]
+            if isinstance(n, str):
+                # only one of the three metadata fields is non-empty
+                return self.txn([('store', o, m.current_serial(o),
+                                  self.rec(spec, op[1]))],
+                                user=b'usr' if n == 'user' else b'',
+                                desc=b'dsc' if n == 'desc' else b'',
+                                ext={'k': 'e'} if n == 'ext' else None)
             return self.txn([('store', o, m.current_serial(o),
                               self.rec(spec, op[1]))],
                             user=b'u' * n, desc=b'd' * n,
@@ -298,7 +317,7 @@ class World:
             return self.txn([('undo', self._tid_of(ul[op[1]])),
                              ('undo', self._tid_of(ul[op[2]]))],
                             desc=b'undo2')
-        if k == 'stale':
+        if k in ('stale', 'stalegone'):
             o = O(op[1])
             rs = m.recs(o)
             return self.txn([('store', o, rs[-2].tid, self.rec(spec, op[1]))])
